@@ -15,6 +15,11 @@ import (
 // to file data.
 func NewUnixFSFile(ctx context.Context, substrate ipld.Node, lsys *ipld.LinkSystem) (LargeBytesNode, error) {
 	if substrate.Kind() == ipld.Kind_Bytes {
+		if lb, ok := substrate.(LargeBytesNode); ok {
+			// already a file view (a link system that reifies what it loads):
+			// stream it rather than materialising it through AsBytes
+			return lb, nil
+		}
 		// A raw / single-node file.
 		return &singleNodeFile{substrate}, nil
 	}
